@@ -287,6 +287,15 @@ class _SNumpy:
     """numpy stand-in for numeric_util (trunc on proxies); everything else is the real numpy"""
 
     trunc = staticmethod(trunc)
+
+    @staticmethod
+    def double(x=0.0):
+        """np.double / np.float64 on a float proxy: the exact widening to binary64 (a NumPy float64 scalar)"""
+        if isinstance(x, SFloat):
+            return SFloat(as_f64(x), "f64")
+        return np.double(x)
+
+    float64 = double
     round = staticmethod(np_round)
     around = staticmethod(np_round)
     rint = staticmethod(np_rint)
